@@ -26,6 +26,8 @@ Mutations(r) ==
   \cup {[r EXCEPT !.n = x] : x \in AllNonces}
   \* an unauthorised request that merely CLAIMS registration info: self-asserted info plus a junk sealed blob
   \cup {[r EXCEPT !.k = x, !.selfinfo = TRUE, !.ww = "W2", !.wk = x, !.wn = r.n] : x \in CertKeys}
+  \cup (IF HasWrapped(r) THEN {[r EXCEPT !.wk = "absent", !.wn = "absent"], [r EXCEPT !.wk = "absent"], [r EXCEPT !.wn = "absent"]} ELSE {})
+  \cup {[Merge(r, [back |-> TRUE]) EXCEPT !.life = x] : x \in Lives}
   \cup (IF HasWrapped(r) THEN {[r EXCEPT !.ww = "W2"]} \cup {[r EXCEPT !.wk = x] : x \in CertKeys}
                                \cup {[r EXCEPT !.wn = x] : x \in Nonces \cup Tokens} ELSE {})
   \cup (IF HasRewrapped(r) THEN {[r EXCEPT !.rwith = x] : x \in CertKeys \cup {"rand"}}
@@ -46,7 +48,7 @@ GenRand(i, signers) ==
    reuse |-> RE({FALSE, FALSE, TRUE})]    \* the nonce of the previous request of the history presented again (must not matter)
 RotRand(i, srcs, nonces) ==
   [op |-> "Rotate", k |-> RE(CertKeys), nid |-> RE(NodeIds \cup {NONE}), order |-> RE(Perms(CertKeys)),
-   src |-> RE(srcs), which |-> RE({"cur", "cur", "prev"}), k2 |-> RE(CertKeys), e2 |-> RE(EncKeys), n2 |-> RE(nonces),
+   src |-> RE(srcs), which |-> RE({"cur", "cur", "cur", "prev", "prev", "gone"}), gsrv |-> 0, genc |-> NONE, k2 |-> RE(CertKeys), e2 |-> RE(EncKeys), n2 |-> RE(nonces),
    ostate |-> RE(StateOrNone), lf |-> RE({FALSE, FALSE, FALSE, TRUE}),
    iid |-> RE({FALSE, FALSE, TRUE}), win |-> RE({"ok", "ok", "ok", "exp2m", "fut2m"})]     \* the inner signed bundle carries an id field other than its key id (must not matter)
 
@@ -83,9 +85,9 @@ OpsOf(cls, s) ==
     [] cls = "GenNear"    -> IF Present(s) = {} THEN {} ELSE
                                {[GenRand(i, Present(s)) EXCEPT !.skip = FALSE] : i \in 1..3}
                                \cup {LET q == GenRand(i, Present(s)) IN [q EXCEPT !.skip = FALSE, !.ssig = q.nsig, !.k = q.nsig] : i \in 4..5}
-    [] cls = "Rotate"     -> {RotRand(i, CertKeys \cup {"rand"}, Nonces \cup Tokens) : i \in 1..3}
+    [] cls = "Rotate"     -> {RotRand(i, CertKeys \cup {"rand"}, Nonces \cup TokNonces) : i \in 1..3}
     [] cls = "RotNear"    -> IF Present(s) = {} THEN {} ELSE
-                               {RotRand(i, Present(s), Nonces) : i \in 1..3}
+                               {RotRand(i, Present(s), Nonces \cup {"tg"}) : i \in 1..3}
                                \cup {LET q == RotRand(i, Present(s), Nonces) IN [q EXCEPT !.k = q.src, !.which = "cur"] : i \in 4..6}
 
 Good(cls, s) == {o \in OpsOf(cls, s) : Apply(s, o).res # "skip"}
